@@ -448,8 +448,8 @@ pub fn sanitize(s: &str) -> String {
 
 fn components() -> Value {
     json!({
-        "real": ["server crate: System, streams/topics/partitions/segments, log+index readers/writers, batch accumulator, message cache, deduplicator, FileState journal + SystemState replay, permissioner, users/PATs, client manager, consumer groups, binary command decoding + all binary handlers, background executors' execute()", "iggy SDK: request encoders, response decoders, TcpClient framing/state machine", "std::fs system calls on tmpfs"],
-        "stubbed": ["tokio scheduler / blocking pool / tokio::fs (replaced by the seeded single-threaded executor and an inline file shim with fault and mutation hooks)", "TCP (in-memory duplex pipe with seeded capacity)", "interval senders of background jobs (the simulator calls the executors)", "TLS/QUIC listeners not run", "OS randomness left real (never branches control flow)"]
+        "real": ["server crate: System, streams/topics/partitions/segments, log+index readers/writers, batch accumulator, message cache, deduplicator, FileState journal + SystemState replay, permissioner, users/PATs, client manager, consumer groups, binary command decoding + all binary handlers, background executors' execute()", "iggy SDK: request encoders, response decoders, TcpClient framing/state machine; in runs of the HTTP arm (see probes http_root_login / request_via_http) also HttpClient (paths, JSON, token handling); in C20 IggyClient/IggyProducer/IggyConsumer", "server HTTP API in runs of the HTTP arm: the axum routers, extractors, handlers, JWT manager and middleware, called in-process (no socket)", "std::fs system calls on tmpfs"],
+        "stubbed": ["tokio scheduler / blocking pool / tokio::fs (replaced by the seeded single-threaded executor and an inline file shim with fault and mutation hooks)", "TCP (in-memory duplex pipe with seeded capacity)", "interval senders of background jobs (the simulator calls the executors)", "TLS/QUIC listeners not run; HTTP has no listener (requests are handed to the router in-process; CORS, metrics and the expired-token cleaner task are left out)", "lock acquisitions of IggySharedMut / SharedSystem are seeded scheduling points (hook H10)", "OS randomness left real (never branches control flow)"]
     })
 }
 
